@@ -17,7 +17,10 @@ RULE = ("Hypothesis-generated programs: one root object of each of the 18 classe
         "a root or retained nested handle of any depth; after every mutator the resource is read "
         "independently and compared with a plain dict/list model. Non-trivial = the program contains "
         "a successful mutator issued through a nested handle (depth>=1) after an earlier mutator; "
-        "distinct = distinct (class, initial document, step list).")
+        "distinct = distinct (class, initial document, step list). Second part (complete product): "
+        "every mutator at root/nested targets with the k-th file-system call of its save failing "
+        "with OSError, for every k (JSON classes), or the store's write call failing (fakes): a call "
+        "that RETURNS normally must still have put the new content into the resource.")
 ASSUMPTIONS = [
     "Redis/MongoDB/Zarr are exercised against call-compatible fakes (no servers offline)",
     "MongoDB value domain excludes ints beyond 64 bits and NUL in keys (BSON limits, documented by the repo)",
@@ -27,7 +30,92 @@ ASSUMPTIONS = [
 
 def shards(tier):
     reps = 1 if tier == "quick" else 6
-    return [{"cls": c.name, "rep": r} for c in ALL for r in range(reps)]
+    return [{"cls": c.name, "rep": r} for c in ALL for r in range(reps)] + \
+           [{"cls": c.name, "mode": "faults"} for c in ALL]
+
+
+# ---- write faults: a mutator that RETURNS must have written, whatever failed underneath
+
+F_DICT = [("setitem", ["k", [1]]), ("delitem", ["a"]), ("pop", ["a"]), ("popitem", []), ("clear", []),
+          ("update", [{"k": 1}]), ("setdefault", ["k", 2]), ("reset", [{"k": 1}])]
+F_LIST = [("setitem", [0, "v"]), ("delitem", [0]), ("insert", [0, 1]), ("append", [[1]]),
+          ("extend", [[1, 2]]), ("iadd", [[1]]), ("remove", [1]), ("pop", []), ("reverse", []),
+          ("clear", []), ("reset", [[3]])]
+
+
+def run_faults(ci, acc):
+    """Every mutator x every file-system call of its save failing (JSON) / the store failing (fakes)."""
+    import copy
+    import errno
+    import shutil
+    from .. import sched
+    from ..classes import new_resource, reset_class_state
+    from ..world import get_path
+    sched.install_faults()
+    kind = ci.kind
+    inner = {"a": 1, "b": [1, 2], "n": {"a": 1, "l": [1, 2]}}
+    doc = dict(inner) if kind == "dict" else [1, {"a": 1, "l": [1, 2], "n": {"a": 1}}, 2]
+    targets = [((), kind)]
+    targets += [(("n",), "dict"), (("b",), "list")] if kind == "dict" else [((1,), "dict"), ((1, "l"), "list")]
+    errs = [errno.EIO, errno.ENOSPC, errno.EACCES, errno.EMFILE]
+    for path, tk in targets:
+        for (m, a) in (F_DICT if tk == "dict" else F_LIST):
+            k = 0
+            while True:
+                k += 1
+                d = wm.case_dir()
+                reset_class_state()
+                try:
+                    res = new_resource(ci, d)
+                    res.write(copy.deepcopy(doc))
+                    root = res.make(ci)
+                    t = root
+                    for key in path:
+                        t = t[key]
+                    model = copy.deepcopy(doc)
+                    mt = get_path(model, path)
+                    if ci.backend == "json":
+                        sched.FAULTS.arm(k, errs[k % 4])
+                    else:
+                        if k > 1:
+                            break
+                        store = getattr(res, "client", None) or getattr(res, "coll", None) or getattr(res, "group", None)
+                        store.fail_writes = True
+                        for ds in getattr(store, "sets", {}).values():
+                            ds.fail_writes = True
+                    real = ops.real_apply(t, tk, m, copy.deepcopy(a), {})
+                    fired = sched.FAULTS.fired if ci.backend == "json" else True
+                    calls = list(sched.FAULTS.calls)
+                    sched.FAULTS.disarm()
+                    if ci.backend != "json":
+                        store.fail_writes = False
+                        for ds in getattr(store, "sets", {}).values():
+                            ds.fail_writes = False
+                    mo = ops.model_apply(mt, tk, m, copy.deepcopy(a), {}, real_out=real)
+                    nt = fired and len(path) >= 1
+                    acc.case([h64("fault", ci.name, m, path, k)] if fired else (),
+                             {"class": ci.name, "op": m, "target": list(path), "failing_call": k,
+                              "calls": calls, "outcome": real.brief()} if (nt and len(acc.samples) < 3) else None,
+                             {"fault.executions": 1, "fault.fired": int(fired)})
+                    if fired and real.ok:
+                        got = res.read()
+                        if got != model:
+                            desc = {"what": "returned_normally_but_backend_not_updated", "op": m,
+                                    "target": list(path), "failing_call": k,
+                                    "call": calls[k - 1] if ci.backend == "json" and k <= len(calls) else "store write",
+                                    "got": got, "expected": model}
+                            if len(acc.failures) < 2:
+                                acc.failures.append({"case": {"property": ID, "engine": "c01faults",
+                                                              "class": ci.name, "op": m, "a": a,
+                                                              "path": list(path), "k": k}, "desc": desc})
+                    if not fired:
+                        break
+                finally:
+                    sched.FAULTS.disarm()
+                    reset_class_state()
+                    shutil.rmtree(d, ignore_errors=True)
+                if k > 40:
+                    break
 
 
 def _post(w):
@@ -71,6 +159,10 @@ def run_shard(spec, seed, tier, active):
     ci = CLASSES[spec["cls"]]
     dom = gen.Dom(ci)
     acc = Acc()
+    if spec.get("mode") == "faults":
+        run_faults(ci, acc)
+        acc.extra["write_faults_exhaustive"] = True
+        return acc.result()
     n = 60 if tier == "quick" else 400
     max_steps = 30 if tier == "quick" else 50
 
@@ -95,4 +187,13 @@ def run_shard(spec, seed, tier, active):
 
 
 def replay(case):
+    if case.get("engine") == "c01faults":
+        ci = CLASSES[case["class"]]
+        acc = Acc()
+        run_faults(ci, acc)
+        for f in acc.failures:
+            c = f["case"]
+            if (c["op"], c["path"]) == (case["op"], case["path"]):
+                return f["desc"]
+        return acc.failures[0]["desc"] if acc.failures else None
     return wm.replay_world(case, post=_post)
